@@ -15,7 +15,12 @@ def reproduce_scenario(context, scenario, *, keyword='Given'):
         if included_scenario.name == scenario:
             for step in included_scenario.steps:
                 if step.step_type in ['given', 'when']:
-                    context.execute_steps('{} {}'.format(keyword, step.name))
+                    text = '{} {}'.format(keyword, step.name)
+                    # Reproduce the table of the step (e.g. the parameters of an event), if any
+                    if step.table:
+                        rows = [step.table.headings] + [row.cells for row in step.table]
+                        text += ''.join('\n| {} |'.format(' | '.join(cells)) for cells in rows)
+                    context.execute_steps(text)
             return
     assert False, 'Unknown scenario {}.'.format(scenario)
 
